@@ -8,8 +8,8 @@ META = {
                  'scheduler with its own worker threads enrolled, its event trace is folded through the model\'s `accept` inside Coq',
     'text': 'Kernel-checked for any number of producers / workers / tasks, pool sizes incl. 0, interleaved resizes and any ring capacities: every generated '
             'task id is in exactly one place of the ledger (a tier, pending at its submitter, held, executing) or has completed exactly once; a failed ring push '
-            'is followed by the central enqueue of the same id; when the destructor returns under its documented contract every tier is empty and every id is '
-            'done exactly once; forceEnqueue on a zero-thread pool runs inline.  The model is tied to the code by hooks at every event (counter add/sub, '
+            'is followed by the central enqueue of the same id; when the destructor returns under its documented contract, outside the known finding\'s domain late_gen, every tier is empty and every id is '
+            'done exactly once (C01_refuted: without that exclusion the statement is false); forceEnqueue on a zero-thread pool runs inline.  The model is tied to the code by hooks at every event (counter add/sub, '
             'enqueue, ring push, pops, drain steps, resize/destructor phases) and by acceptance of the traces of generated programs under generated schedules; '
             'the executable property (per-task invocation counters == 1 after ~ThreadPool) is evaluated on the implementation\'s own output.',
     'note': 'Trusted: Coq kernel; moodycamel::ConcurrentQueue (per-producer FIFO multiset) and MpmcRingBuffer atomicity at event granularity (C34); '
@@ -19,7 +19,7 @@ ASSUMPTIONS = [
     'event granularity: between two hooks of a thread the ring buffers, moodycamel::ConcurrentQueue and the wake state run atomically (MPMC ring linearizability is C34, moodycamel trusted)',
     'sleeping/waking of workers is abstract (C07/C09); timed futex waits time out only when nothing else can run (the pool\'s backstop / poll period)',
     'task bodies do not throw; wake-mode (epoch waiter) pool only; the numStealRings_ check and the steal-ring push of scheduleImplPlaced are one event (add-only hooks cannot split the && expression)',
-    'dtor_drains_all assumes the documented contract of ~ThreadPool: no other thread inside the pool when it starts and nothing submitted afterwards (stated as trace predicates quiet / contract_event)',
+    'dtor_drains_all assumes the documented contract of ~ThreadPool as trace predicates (quiet: no submission in progress and no other thread inside the pool when it starts; contract_event: afterwards only the destructor thread and the pool workers act) and excludes exactly the Gallina predicate late_gen (a task generated after the destructor\'s last central-queue drain) -- the same predicate judge_pool uses to classify a never-invoked task as the known finding dtor-drain-task-reschedules; the model additionally requires that resizeLocked / ~ThreadPool steps are not taken by a thread in the middle of one of its own submissions (pend = [])',
 ]
 
 
